@@ -972,6 +972,17 @@ def int_validator_shape(ctx, core="esp_kconfiglib.core"):
 from ..provenance import effective_guards, reaching_assignments  # noqa: E402,F401
 
 
+_NEG_OPS = {ast.IsNot: ast.Is, ast.NotEq: ast.Eq, ast.NotIn: ast.In}
+
+
+def _canon_leaf(e: ast.AST) -> Tuple[str, bool]:
+    """(atom text, negated?) - `a is not b` is the negation of the atom `a is b`"""
+    if isinstance(e, ast.Compare) and len(e.ops) == 1 and type(e.ops[0]) in _NEG_OPS:
+        pos = ast.Compare(left=e.left, ops=[_NEG_OPS[type(e.ops[0])]()], comparators=e.comparators)
+        return ast.unparse(pos), True
+    return ast.unparse(e), False
+
+
 def _bool_leaves(e: ast.AST, out: Set[str]):
     if isinstance(e, ast.BoolOp):
         for v in e.values:
@@ -979,7 +990,7 @@ def _bool_leaves(e: ast.AST, out: Set[str]):
     elif isinstance(e, ast.UnaryOp) and isinstance(e.op, ast.Not):
         _bool_leaves(e.operand, out)
     else:
-        out.add(ast.unparse(e))
+        out.add(_canon_leaf(e)[0])
 
 
 def _bool_eval(e: ast.AST, v: Dict[str, bool]) -> bool:
@@ -988,7 +999,8 @@ def _bool_eval(e: ast.AST, v: Dict[str, bool]) -> bool:
         return all(vals) if isinstance(e.op, ast.And) else any(vals)
     if isinstance(e, ast.UnaryOp) and isinstance(e.op, ast.Not):
         return not _bool_eval(e.operand, v)
-    return v[ast.unparse(e)]
+    k, neg = _canon_leaf(e)
+    return (not v[k]) if neg else v[k]
 
 
 def facts_vs_formula(facts: Set[Tuple[str, bool]], formula: str) -> Tuple[bool, Set[Tuple[str, bool]]]:
